@@ -322,6 +322,10 @@ def _initial(eng: C16Engine) -> Optional[str]:
                                                    "configured": exp[dbh][f], "database_has": got.get(dbh, {}).get(f)},
                                 f"dispatch:configured-renderer-not-stored:{f}:{eng.via}")
     if exp != got:
+        # the realised objects are not what the model says.  Before discarding the run as a precondition
+        # failure (emitter vs. parser, C01 territory) let the render oracles look at the initial state: an
+        # element the database lists but that renders through other classes is this property's business
+        eng.step(["render_all", 1], -1)
         return "initial-dump-mismatch: " + "; ".join(diff_dumps(exp, got)[:3])
     return None
 
